@@ -1206,8 +1206,12 @@ impl hb_buffer_t {
             return false;
         }
 
-        self.info.resize(size, hb_glyph_info_t::default());
-        self.pos.resize(size, GlyphPosition::default());
+        if size > self.info.len() {
+            self.info.resize(size, hb_glyph_info_t::default());
+        }
+        if size > self.pos.len() {
+            self.pos.resize(size, GlyphPosition::default());
+        }
         true
     }
 
